@@ -156,7 +156,17 @@ impl<'a> Session<'a> {
         let mut logged = 0usize;
         let mut skipped = 0u64;
         let mut last_msg = Instant::now();
+        let mut stop_at: Option<Instant> = None;
         loop {
+            // a search that keeps reporting but does not end within the watchdog time after it was told to stop never answers
+            let overdue = match stop_at { Some(t) => t.elapsed() >= WATCHDOG, None => started.elapsed() >= WATCHDOG * 4 };
+            if overdue {
+                self.out.emit(&json!({"c": self.id, "ev": "timeout", "why": "no bestmove: the search keeps running long after it should have ended (60 s after stop / 240 s in all)"}));
+                self.dead = true;
+                // the search thread cannot be ended from here and would keep a core and the message channel busy: leave the process
+                // (the driver records the exit and restarts the harness on the remaining cases)
+                std::process::exit(3);
+            }
             if let Some((at, fen, moves)) = during.clone() {
                 if started.elapsed() >= at {
                     during = None;
@@ -174,12 +184,14 @@ impl<'a> Session<'a> {
             }
             if !stop_sent && started.elapsed() >= stop_after.unwrap() {
                 stop_sent = true;
+                stop_at = Some(Instant::now());
                 self.emit_in("stop", json!({}));
                 self.engine.accept(UciCommand::Stop);
             }
             if logged >= MAX_LOGGED && !stop_sent {
                 // nothing more to learn from this search: end it
                 stop_sent = true;
+                stop_at = Some(Instant::now());
                 self.emit_in("stop", json!({}));
                 self.engine.accept(UciCommand::Stop);
             }
@@ -316,6 +328,11 @@ impl<'a> Session<'a> {
                         self.dead = true;
                         return;
                     }
+                }
+                if started.elapsed() >= WATCHDOG {
+                    self.out.emit(&json!({"c": self.id, "ev": "timeout", "why": format!("burst: go number {} keeps running ({} ms)", i + 1, started.elapsed().as_millis())}));
+                    self.dead = true;
+                    std::process::exit(3);
                 }
             }
         }
